@@ -198,6 +198,11 @@ func (p *Printer) define(t *Term) {
 		}
 		body = p.ref(r)
 	case OUF:
+		if t.Name == "trunc" && len(t.Args) == 1 && t.Sort == F64 {
+			// math.Trunc is interpreted exactly (C17: integrality tests in formatters)
+			body = fmt.Sprintf("(fp.roundToIntegral RTZ %s)", a(0))
+			break
+		}
 		if !p.ufs[t.Name] {
 			p.ufs[t.Name] = true
 			var sb strings.Builder
